@@ -106,6 +106,10 @@ def cases(sh, tier):
     for lst in lists:
         for join, sort, axis in _opts():
             yield {"in": lst, "join": join, "sort": sort, "axis": axis, "tier": tier}
+            if sort:
+                # the same inputs after they went through an ordinary align() once (whatever that call left on their Axis objects - a
+                # cached ordering - must not change what the next call returns)
+                yield {"in": lst, "join": join, "sort": sort, "axis": axis, "tier": tier, "used": True}
         # the user has switched the module-level default for [] indexing to positions: aligning is by label all the same
         if any(P[i]["kind"] == "ds" for i in lst) or len(lst) == 2:
             yield {"in": lst, "join": "outer", "sort": False, "axis": None, "tier": tier, "gopt": "position"}
@@ -154,6 +158,8 @@ def check(case):
                 all_dims.append(d)
     if axis is not None and axis not in all_dims:
         return unspecified("axis-not-present")
+    if case.get("used"):
+        call(da_align, objs, "outer", False, None)
     if case.get("gopt"):
         prev = common.da.rcParams["indexing.by"]
         common.da.rcParams["indexing.by"] = case["gopt"]
